@@ -562,4 +562,343 @@ theorem parse_encode : ∀ (ps : List Pkt), (∀ x ∈ ps, Fits x) → parse (en
     have : encode (x :: ps) = pktLine x ++ encode ps := by simp [encode]
     rw [this, parse_frame x _ (h x List.mem_cons_self), ih (fun y hy => h y (List.mem_cons_of_mem _ hy))]
 
+/-! ### side-band -/
+
+theorem sbChunks_flatten : ∀ (f : Nat) (blob : Bytes), blob.length ≤ f → (sbChunks f blob).flatten = blob := by
+  have k : Gen.PktLine.sbChunk = 65515 := rfl
+  intro f
+  induction f with
+  | zero =>
+    intro blob h
+    have : blob = [] := List.eq_nil_of_length_eq_zero (by omega)
+    simp [sbChunks, this]
+  | succ f ih =>
+    intro blob h
+    simp only [sbChunks]
+    by_cases hb : blob = []
+    · simp [hb]
+    · simp only [hb, if_false, List.flatten_cons]
+      have hpos : 0 < blob.length := by
+        cases blob with | nil => exact absurd rfl hb | cons _ _ => simp
+      rw [ih _ (by simp only [List.length_drop, k]; omega), List.take_append_drop]
+
+theorem sbChunks_bounds : ∀ (f : Nat) (blob : Bytes), ∀ c ∈ sbChunks f blob,
+    0 < c.length ∧ c.length ≤ Gen.PktLine.sbChunk := by
+  have k : Gen.PktLine.sbChunk = 65515 := rfl
+  intro f
+  induction f with
+  | zero => intro blob c hc; simp [sbChunks] at hc
+  | succ f ih =>
+    intro blob c hc
+    simp only [sbChunks] at hc
+    by_cases hb : blob = []
+    · simp [hb] at hc
+    · simp only [hb, if_false, List.mem_cons] at hc
+      have hpos : 0 < blob.length := by
+        cases blob with | nil => exact absurd rfl hb | cons _ _ => simp
+      rcases hc with rfl | hc
+      · simp only [List.length_take, k]; omega
+      · exact ih _ c hc
+
+theorem sidebandDemux_map (ch : UInt8) : ∀ (cs : List Bytes) (rest : List Bytes),
+    sidebandDemux (cs.map (ch :: ·) ++ rest) = (sidebandDemux rest).map ((cs.map (ch, ·)) ++ ·) := by
+  intro cs
+  induction cs with
+  | nil => intro rest; simp
+  | cons c cs ih =>
+    intro rest
+    simp only [List.map_cons, List.cons_append, sidebandDemux, ih]
+    cases sidebandDemux rest <;> simp
+
+/-- `read_pkt_seq` over any conforming reader returns the non-empty packets up to the flush-pkt -/
+theorem readPktSeq_roundtrip {τ : Type} {rd : Reader τ} {abs : τ → Bytes} {Valid : τ → Prop} {z : Prop}
+    (hrd : ReadSpec rd abs Valid z) (rest : Bytes) : ∀ (ds : List Bytes) (fuel : Nat) (s : τ), Valid s →
+    abs s = encode (ds.map some) ++ (pktLine none ++ rest) →
+    (∀ d ∈ ds, d ≠ [] ∧ d.length + 4 < 65536) → ds.length < fuel →
+    ∃ s', readPktSeq rd fuel ⟨none, s⟩ = (ds, none, ⟨none, s'⟩) ∧ abs s' = rest ∧ Valid s' := by
+  intro ds
+  induction ds with
+  | nil =>
+    intro fuel s hv habs _ hfuel
+    cases fuel with
+    | zero => simp at hfuel
+    | succ f =>
+      obtain ⟨s', h1, h2, h3⟩ := readCore_frame hrd s none rest hv (by simpa [encode] using habs) trivial
+        (Or.inr (by simp))
+      exact ⟨s', by simp [readPktSeq, readPktLine, h1], h2, h3⟩
+  | cons d ds ih =>
+    intro fuel s hv habs hall hfuel
+    cases fuel with
+    | zero => simp at hfuel
+    | succ f =>
+      have hd := hall d List.mem_cons_self
+      obtain ⟨s1, h1, h2, h3⟩ := readCore_frame hrd s (some d) (encode (ds.map some) ++ (pktLine none ++ rest)) hv
+        (by simpa [encode] using habs) hd.2 (Or.inr (by simpa using hd.1))
+      obtain ⟨s', g1, g2, g3⟩ := ih f s1 h3 h2 (fun y hy => hall y (List.mem_cons_of_mem _ hy))
+        (by simp at hfuel; omega)
+      refine ⟨s', ?_, g2, g3⟩
+      cases d with
+      | nil => exact absurd rfl hd.1
+      | cons b r => simp [readPktSeq, readPktLine, h1, g1]
+
+/-! ### `BufferedPktLineWriter` -/
+
+theorem pySlice_append (l : Bytes) (i : Int) : pySliceTo l i ++ pySliceFrom l i = l := by
+  unfold pySliceTo pySliceFrom
+  split <;> exact List.take_append_drop _ _
+
+theorem bwFlush_stream (st : BW) : (bwFlush st).1.flatten = st.wbuf ∧ (bwFlush st).2.wbuf = [] := by
+  unfold bwFlush
+  by_cases h : st.wbuf = [] <;> simp [h]
+
+theorem bwWrite_stream (bufsize : Nat) (st : BW) (d : Bytes) :
+    (bwWrite bufsize st d).1.flatten ++ (bwWrite bufsize st d).2.wbuf = st.wbuf ++ pktLine (some d) := by
+  unfold bwWrite
+  simp only
+  split
+  · rename_i h
+    have f := bwFlush_stream ⟨st.wbuf ++ pySliceTo (pktLine (some d)) (↑(pktLine (some d)).length -
+      (↑st.buflen + ↑(pktLine (some d)).length - ↑bufsize)), st.buflen⟩
+    simp only [f.1, f.2, List.nil_append, List.append_assoc, pySlice_append]
+  · simp
+
+theorem bwRun_stream (bufsize : Nat) : ∀ (ds : List Bytes) (st : BW),
+    (bwRun bufsize st ds).flatten = st.wbuf ++ encode (ds.map some) := by
+  intro ds
+  induction ds with
+  | nil => intro st; simp [bwRun, encode, (bwFlush_stream st).1]
+  | cons d ds ih =>
+    intro st
+    simp only [bwRun, List.flatten_append, ih]
+    rw [← List.append_assoc, bwWrite_stream]
+    simp [encode]
+
+/-! ### `PackStreamReader._read` trailer -/
+
+theorem trailerStep_inv (h : Nat) (hh : 0 < h) (st : Trailer) (total data : Bytes)
+    (h1 : st.hashed ++ st.trailer = total) (h2 : st.trailer.length = min h total.length) :
+    (trailerStep h st data).hashed ++ (trailerStep h st data).trailer = total ++ data ∧
+    (trailerStep h st data).trailer.length = min h (total ++ data).length := by
+  unfold trailerStep
+  simp only
+  by_cases hn : data.length ≥ h
+  · have e0 : ¬ h = 0 := by omega
+    simp only [hn, if_true, e0, if_false, List.take_length, List.drop_length, List.nil_append]
+    refine ⟨?_, ?_⟩
+    · rw [List.append_assoc, List.take_append_drop, ← h1]
+    · simp only [List.length_drop, List.length_append]; omega
+  · simp only [hn, if_false]
+    by_cases h0 : data.length = 0
+    · have : data = [] := List.eq_nil_of_length_eq_zero h0
+      subst this
+      have hp : 0 + st.trailer.length - h = 0 := by omega
+      simp only [List.length_nil, hp, List.take_zero, List.drop_zero, List.append_nil, if_true]
+      exact ⟨h1, h2⟩
+    · simp only [h0, if_false, Nat.sub_self, List.drop_zero, List.take_zero, List.append_nil]
+      refine ⟨?_, ?_⟩
+      · rw [List.append_assoc, ← List.append_assoc (st.trailer.take _), List.take_append_drop,
+          ← List.append_assoc, h1]
+      · simp only [List.length_append, List.length_drop]; omega
+
+theorem trailerRun_inv (h : Nat) (hh : 0 < h) : ∀ (cs : List Bytes) (st : Trailer) (total : Bytes),
+    st.hashed ++ st.trailer = total → st.trailer.length = min h total.length →
+    (trailerRun h st cs).hashed ++ (trailerRun h st cs).trailer = total ++ cs.flatten ∧
+    (trailerRun h st cs).trailer.length = min h (total ++ cs.flatten).length := by
+  intro cs
+  induction cs with
+  | nil => intro st total h1 h2; simpa [trailerRun] using ⟨h1, h2⟩
+  | cons c cs ih =>
+    intro st total h1 h2
+    obtain ⟨a, b⟩ := trailerStep_inv h hh st total c h1 h2
+    have := ih (trailerStep h st c) (total ++ c) a b
+    simpa [trailerRun, List.append_assoc] using this
+
+/-! ### capability lists -/
+
+theorem rstrip_snoc_ws (s : Bytes) (b : UInt8) (h : isWs b = true) : rstrip (s ++ [b]) = rstrip s := by
+  simp [rstrip, List.reverse_append, List.dropWhile_cons, h]
+
+theorem rstrip_snoc_nonws (s : Bytes) (b : UInt8) (h : isWs b = false) : rstrip (s ++ [b]) = s ++ [b] := by
+  simp [rstrip, List.reverse_append, List.dropWhile_cons, h]
+
+theorem splitOn_ne_nil (sep : UInt8) : ∀ s : Bytes, splitOn sep s ≠ [] := by
+  intro s
+  induction s with
+  | nil => simp [splitOn]
+  | cons b r ih =>
+    simp only [splitOn]
+    split
+    · simp
+    · split <;> simp
+
+theorem splitOn_append (sep : UInt8) : ∀ (a r : Bytes), sep ∉ a →
+    splitOn sep (a ++ sep :: r) = a :: splitOn sep r := by
+  intro a
+  induction a with
+  | nil => intro r _; simp [splitOn]
+  | cons x a ih =>
+    intro r h
+    have hx : ¬ x = sep := fun e => h (by simp [e])
+    have ha : sep ∉ a := fun e => h (List.mem_cons_of_mem _ e)
+    simp only [List.cons_append, splitOn, hx, if_false, ih r ha]
+
+theorem splitOn_nosep (sep : UInt8) : ∀ (a : Bytes), sep ∉ a → splitOn sep a = [a] := by
+  intro a
+  induction a with
+  | nil => intro _; rfl
+  | cons x a ih =>
+    intro h
+    have hx : ¬ x = sep := fun e => h (by simp [e])
+    have ha : sep ∉ a := fun e => h (List.mem_cons_of_mem _ e)
+    simp only [splitOn, hx, if_false, ih ha]
+
+theorem splitOn_join (sep : UInt8) : ∀ (parts : List Bytes), parts ≠ [] → (∀ p ∈ parts, sep ∉ p) →
+    splitOn sep (joinWith sep parts) = parts := by
+  intro parts
+  induction parts with
+  | nil => intro h; exact absurd rfl h
+  | cons p rest ih =>
+    intro _ hall
+    cases rest with
+    | nil => simp only [joinWith]; exact splitOn_nosep sep p (hall p List.mem_cons_self)
+    | cons q r =>
+      simp only [joinWith]
+      rw [splitOn_append sep p _ (hall p List.mem_cons_self),
+        ih (by simp) (fun x hx => hall x (List.mem_cons_of_mem _ hx))]
+
+theorem mem_joinWith (sep x : UInt8) : ∀ (parts : List Bytes), x ∈ joinWith sep parts →
+    x = sep ∨ ∃ p ∈ parts, x ∈ p := by
+  intro parts
+  induction parts with
+  | nil => intro h; simp [joinWith] at h
+  | cons p rest ih =>
+    intro h
+    cases rest with
+    | nil => exact Or.inr ⟨p, List.mem_cons_self, by simpa [joinWith] using h⟩
+    | cons q r =>
+      simp only [joinWith, List.mem_append, List.mem_cons] at h
+      rcases h with h | h | h
+      · exact Or.inr ⟨p, List.mem_cons_self, h⟩
+      · exact Or.inl h
+      · rcases ih h with h | ⟨p', hp', hx⟩
+        · exact Or.inl h
+        · exact Or.inr ⟨p', List.mem_cons_of_mem _ hp', hx⟩
+
+theorem joinWith_snoc (sep : UInt8) : ∀ (i : List Bytes) (p : Bytes), i ≠ [] →
+    joinWith sep (i ++ [p]) = joinWith sep i ++ sep :: p := by
+  intro i
+  induction i with
+  | nil => intro p h; exact absurd rfl h
+  | cons a i ih =>
+    intro p _
+    cases i with
+    | nil => simp [joinWith]
+    | cons b i =>
+      have := ih p (by simp)
+      simp only [List.cons_append, joinWith] at this ⊢
+      rw [this]
+      simp
+
+/-- a list whose last part ends in `b` joins to a string ending in `b` -/
+theorem joinWith_last (sep : UInt8) (i : List Bytes) (c : Bytes) (b : UInt8) :
+    ∃ X, joinWith sep (i ++ [c ++ [b]]) = X ++ [b] := by
+  by_cases h : i = []
+  · subst h; exact ⟨c, by simp [joinWith]⟩
+  · exact ⟨joinWith sep i ++ sep :: c, by rw [joinWith_snoc sep i _ h]; simp⟩
+
+theorem formatCapabilityLine_eq : ∀ (caps : List Bytes), caps ≠ [] →
+    formatCapabilityLine caps = 32 :: joinWith 32 caps := by
+  intro caps
+  induction caps with
+  | nil => intro h; exact absurd rfl h
+  | cons c rest ih =>
+    intro _
+    cases rest with
+    | nil => simp [formatCapabilityLine, joinWith]
+    | cons d r =>
+      have := ih (by simp)
+      simp only [formatCapabilityLine, List.map_cons, List.flatten_cons, joinWith] at this ⊢
+      rw [this]
+      simp
+
+/-- Tokens that the space-separated, `strip()`-ped capability list can carry. -/
+structure CapsWF (caps : List Bytes) : Prop where
+  nosep : ∀ c ∈ caps, (32 : UInt8) ∉ c ∧ (0 : UInt8) ∉ c
+  first : ∃ b r t, caps = (b :: r) :: t ∧ isWs b = false
+  last : ∃ i c b, caps = i ++ [c ++ [b]] ∧ isWs b = false
+
+theorem CapsWF.ne_nil {caps : List Bytes} (h : CapsWF caps) : caps ≠ [] := by
+  obtain ⟨b, r, t, e, _⟩ := h.first
+  rw [e]; simp
+
+theorem joinWith_first (sep b : UInt8) (r : Bytes) (t : List Bytes) :
+    ∃ J, joinWith sep ((b :: r) :: t) = b :: J := by
+  cases t with
+  | nil => exact ⟨r, rfl⟩
+  | cons q t => exact ⟨r ++ sep :: joinWith sep (q :: t), rfl⟩
+
+theorem strip_capline (caps : List Bytes) (h : CapsWF caps) :
+    strip (32 :: joinWith 32 caps) = joinWith 32 caps := by
+  obtain ⟨i, c, b, e, hb⟩ := h.last
+  obtain ⟨X, hX⟩ := joinWith_last 32 i c b
+  obtain ⟨b0, r, t, e0, hb0⟩ := h.first
+  obtain ⟨J, hJ⟩ := joinWith_first 32 b0 r t
+  unfold strip
+  have : rstrip (32 :: joinWith 32 caps) = 32 :: joinWith 32 caps := by
+    rw [e, hX, ← List.cons_append, rstrip_snoc_nonws _ _ hb]
+  rw [this]
+  have w32 : isWs 32 = true := by decide
+  rw [e0, hJ]
+  simp [lstrip, List.dropWhile_cons, w32, hb0]
+
+/-! ### side-band: the packets a sequence of writes produces -/
+
+/-- the packets `write_sideband` frames for a sequence of `(channel, blob)` writes -/
+def sbPackets (writes : List (UInt8 × Bytes)) : List Bytes :=
+  writes.flatMap (fun w => (sbChunks w.2.length w.2).map (w.1 :: ·))
+
+/-- the `(channel, data)` pairs a reader should see -/
+def sbPairs (writes : List (UInt8 × Bytes)) : List (UInt8 × Bytes) :=
+  writes.flatMap (fun w => (sbChunks w.2.length w.2).map (fun c => (w.1, c)))
+
+theorem sideband_wire (writes : List (UInt8 × Bytes)) :
+    (writes.flatMap (fun w => writeSideband w.1 w.2)).flatten = encode ((sbPackets writes).map some) := by
+  induction writes with
+  | nil => simp [sbPackets, encode]
+  | cons w ws ih =>
+    have hw : (writeSideband w.1 w.2).flatten
+        = encode (((sbChunks w.2.length w.2).map (w.1 :: ·)).map some) := by
+      simp [writeSideband, encode, List.map_map, Function.comp_def]
+    simp only [List.flatMap_cons, List.flatten_append, ih, hw]
+    simp [sbPackets, encode]
+
+theorem sbPackets_ok (writes : List (UInt8 × Bytes)) :
+    ∀ d ∈ sbPackets writes, d ≠ [] ∧ d.length + 4 < 65536 := by
+  intro d hd
+  simp only [sbPackets, List.mem_flatMap, List.mem_map] at hd
+  obtain ⟨w, _, c, hc, rfl⟩ := hd
+  obtain ⟨_, b2⟩ := sbChunks_bounds _ _ c hc
+  have k : Gen.PktLine.sbChunk = 65515 := rfl
+  exact ⟨by simp, by simp only [List.length_cons]; omega⟩
+
+theorem sidebandDemux_packets (writes : List (UInt8 × Bytes)) :
+    sidebandDemux (sbPackets writes) = some (sbPairs writes) := by
+  induction writes with
+  | nil => simp [sbPackets, sbPairs, sidebandDemux]
+  | cons w ws ih =>
+    simp only [sbPackets, sbPairs, List.flatMap_cons] at ih ⊢
+    rw [sidebandDemux_map, ih]
+    rfl
+
+theorem sbPairs_channel (ch a : UInt8) (cs : List Bytes) :
+    (((cs.map (fun c => (a, c))).filter (fun x => x.1 = ch)).map (·.2)) = if a = ch then cs else [] := by
+  induction cs with
+  | nil => simp
+  | cons c cs ih =>
+    by_cases h : a = ch
+    · simp only [h, if_true] at ih ⊢
+      simp [List.filter_cons, ih]
+    · simp only [h, if_false] at ih ⊢
+      simp [List.filter_cons, h, ih]
+
 end Dulwich.PktLine
